@@ -6,6 +6,7 @@ import (
 	"flag"
 	"fmt"
 	"math/rand"
+	"io"
 	"net"
 	"os"
 	"os/exec"
@@ -28,6 +29,11 @@ type scen struct {
 	Reply     string `json:"reply"`
 	Malform   string `json:"malform"`
 	Buffers   []int  `json:"buffers"` // BUFFER sequence after data (nil = len, 0)
+	// Script names a BUFFER / CRCFAULT interleaving with reports that crossed a data frame on the line:
+	//  "stale-report-crcfault": the BUFFER 0 about frame 1 crosses frame 2; the TNC answers frame 2 with CRCFAULT.
+	//  "stale-zero":      frame 1 -> BUFFER 5; a BUFFER 0 for frame 1 crosses frame 2; frame 2 -> BUFFER 5; Flush is called;
+	//                     the TNC reports BUFFER 0 300 ms later.  Flush must not return before that report.
+	Script string `json:"script"`
 }
 
 func guard(f func()) (pan string) {
@@ -81,6 +87,16 @@ func runScenario(sc scen) []rec.Event {
 	}
 	sim.CRCFaults = 0
 	sim.BufferAfter = sc.Buffers
+	if sc.Script == "stale-report-crcfault" {
+		// the BUFFER 0 about frame 1 crosses frame 2, which the TNC then answers with CRCFAULT (Ardop_stalefault.cfg)
+		sim.BufferScript = map[int][]int{1: {50}}
+		sim.StaleBefore = map[int][]string{2: {"BUFFER 0"}}
+		sim.FaultFrames = map[int]bool{2: true}
+	}
+	if sc.Script == "stale-zero" {
+		sim.BufferScript = map[int][]int{1: {5}, 2: {5}}
+		sim.StaleBefore = map[int][]string{2: {"BUFFER 0"}}
+	}
 	var tnc *ardop.TNC
 	var err error
 	var pan string
@@ -156,9 +172,37 @@ func runScenario(sc scen) []rec.Event {
 				break
 			}
 		}
-		if f, ok := conn.(interface{ Flush() error }); ok && len(accepted) > 0 {
+		if sc.Script == "stale-report-crcfault" {
+			time.Sleep(400 * time.Millisecond) // time for the CRCFAULT to be processed and the frame to be sent again
+			sim.SendCmd("BUFFER 0")
+		} else if f, ok := conn.(interface{ Flush() error }); ok && len(accepted) > 0 && sc.Script == "stale-zero" {
+			time.Sleep(200 * time.Millisecond) // BUFFER 5 for frame 2 has been sent and processed
 			var ferr error
-			ret := within(5*time.Second, func() { pan = guard(func() { ferr = f.Flush() }) })
+			done := make(chan struct{})
+			var at time.Time
+			sim.Note("flushCall", 0)
+			go func() { pan = guard(func() { ferr = f.Flush() }); at = time.Now(); sim.Note("flushRet", 0); close(done) }()
+			early := false
+			select {
+			case <-done:
+				early = true
+			case <-time.After(300 * time.Millisecond):
+			}
+			sim.SendCmd("BUFFER 0")
+			ret := early
+			if !early {
+				select {
+				case <-done:
+					ret = true
+				case <-time.After(3 * time.Second):
+				}
+			}
+			add(rec.Event{"op": "Api", "call": "Flush(stale BUFFER 0)", "ok": ret && !early && pan == "" && ferr == nil && sim.FlushSound(at), "panic": pan, "returned": ret,
+				"err": fmt.Sprintf("returned before the TNC reported an empty buffer for the last frame: %v", early)})
+		} else if f, ok := conn.(interface{ Flush() error }); ok && len(accepted) > 0 {
+			var ferr error
+			sim.Note("flushCall", 0)
+			ret := within(5*time.Second, func() { pan = guard(func() { ferr = f.Flush() }); sim.Note("flushRet", 0) })
 			now := time.Now()
 			if sc.Buffers != nil && sc.Buffers[len(sc.Buffers)-1] != 0 {
 				// the TNC never reports an empty buffer: Flush must not return
@@ -276,6 +320,8 @@ func runScenario(sc scen) []rec.Event {
 		}
 	}
 	if sc.Kind == "outbound" {
+		add(rec.Event{"op": "TncLog", "log": sim.LogSnapshot()})
+		add(rec.Event{"op": "TncFaults", "log": sim.LogSnapshot()})
 		add(rec.Event{"op": "TncData", "wellformed": wellformed, "payloadOK": bytes.Equal(payload, accepted), "got": len(payload), "want": len(accepted)})
 		if sc.CRCFaults > 0 {
 			add(rec.Event{"op": "Retransmit", "identical": retransOK, "faults": sc.CRCFaults})
@@ -291,6 +337,10 @@ func runScenario(sc scen) []rec.Event {
 	return evs
 }
 
+type nopConn struct{ net.Conn }
+
+func (nopConn) Read(b []byte) (int, error) { time.Sleep(100 * time.Millisecond); return 0, io.EOF }
+
 // malformed input from the TNC, in a child process: the outcome to detect is a crash
 func runMalformed(kind string) int {
 	sim, host := NewSerialSim()
@@ -298,9 +348,31 @@ func runMalformed(kind string) int {
 	if err != nil {
 		return 3
 	}
-	conn, err := tnc.Dial("LA2BBB")
-	if err != nil {
-		return 3
+	var conn net.Conn
+	listening := strings.HasSuffix(kind, "@listen")
+	kind = strings.TrimSuffix(kind, "@listen")
+	if listening {
+		// the malformed input arrives while the listener waits for an inbound connection
+		ln, err := tnc.Listen()
+		if err != nil {
+			return 3
+		}
+		go func() {
+			for {
+				c, err := ln.Accept()
+				if err != nil {
+					return
+				}
+				go io.Copy(io.Discard, c)
+			}
+		}()
+		time.Sleep(50 * time.Millisecond)
+		conn = nopConn{}
+	} else {
+		conn, err = tnc.Dial("LA2BBB")
+		if err != nil {
+			return 3
+		}
 	}
 	frame := func(body []byte) []byte {
 		c := crc16(body)
@@ -308,8 +380,15 @@ func runMalformed(kind string) int {
 	}
 	switch kind {
 	case "ctrl-no-arg":
-		for _, c := range []string{"BUFFER", "PTT", "NEWSTATE", "LISTEN", "BUSY", "STATE", "FAULT", "CONNECTED", "MYCALL", "ARQTIMEOUT", "CODEC", "TARGET", "STATUS"} {
-			sim.SendCmd(c)
+		for rep := 0; rep < 3; rep++ {
+			for _, c := range []string{"BUFFER", "PTT", "NEWSTATE", "LISTEN", "BUSY", "STATE", "FAULT", "CONNECTED", "MYCALL", "ARQTIMEOUT", "CODEC", "TARGET", "STATUS",
+				"PENDING", "CANCELPENDING", "DISCONNECTED", "CRCFAULT", "INPUTPEAKS", "VERSION", "ARQBW", "GRIDSQUARE"} {
+				if listening {
+					sim.SendCmd("TARGET LA1AAA") // an inbound call is being set up
+				}
+				sim.SendCmd(c)
+			}
+			time.Sleep(30 * time.Millisecond)
 		}
 	case "ctrl-unknown":
 		sim.SendCmd("FROBNICATE 1 2 3")
@@ -548,6 +627,8 @@ func Main(args []string) int {
 	mk(func(s *scen) { s.Kind = "outbound"; s.Writes = []int{70}; s.CRCFaults = 3 })
 	mk(func(s *scen) { s.Kind = "outbound"; s.Writes = []int{70}; s.Buffers = []int{70, 35} })
 	mk(func(s *scen) { s.Kind = "outbound"; s.Writes = []int{70, 80}; s.Buffers = []int{150, 100, 20, 0} })
+	mk(func(s *scen) { s.Kind = "outbound"; s.Writes = []int{50, 60}; s.Script = "stale-zero" })
+	mk(func(s *scen) { s.Kind = "outbound"; s.Writes = []int{50, 60}; s.Script = "stale-report-crcfault" })
 	mk(func(s *scen) { s.Kind = "outbound"; s.Reply = "fault" })
 	mk(func(s *scen) { s.Kind = "outbound"; s.Reply = "timeout" })
 	for _, rb := range []int{4096, 100, 1, 65536} {
@@ -610,7 +691,8 @@ func Main(args []string) int {
 	for i, evs := range results {
 		w.Write(map[string]interface{}{"scen": jobs[i].desc}, evs)
 	}
-	for _, k := range []string{"ctrl-no-arg", "ctrl-unknown", "bad-crc", "short-dframe", "len-65535", "truncated", "garbage", "unknown-prefix"} {
+	for _, k := range []string{"ctrl-no-arg", "ctrl-unknown", "bad-crc", "short-dframe", "len-65535", "truncated", "garbage", "unknown-prefix",
+		"ctrl-no-arg@listen", "ctrl-unknown@listen", "bad-crc@listen", "short-dframe@listen", "garbage@listen", "unknown-prefix@listen"} {
 		evs := runChild(selfExe, []string{"ardop", "--child", k}, 30*time.Second)
 		crashed, hung, site := false, false, ""
 		if len(evs) == 1 && evs[0]["op"] == "Crash" {
